@@ -23,6 +23,28 @@
 //! Vectors of a dimension below the documented threshold (256) must come back bit-identical
 //! whatever their class; longer ones as in the roundtrip part.
 //!
+//! key-space part: keys are arbitrary strings, so stores are filled with keys of every shape - the
+//! empty key, a first character from every UTF-8 class (any ASCII byte incl. NUL/control/DEL,
+//! U+0080..U+00FF, two-, three- and four-byte characters and the class boundaries), bare or behind
+//! the routed class prefixes (`emb:`, `_cache:`, `node:`, `edge:`, `table:`, `_blob:meta:`), keys that
+//! are prefixes of each other, long keys; overwritten, deleted and put again - and every reloaded
+//! store (file, file uncompressed, file loaded with a Bloom filter, bytes into a fresh / a
+//! Bloom-filter store, SlabRouter bytes / file / snapshot()+restore(), quantising format) must answer
+//! ALL public key reads like the original: scan(""), get and exists of present and absent keys,
+//! scan(prefix) and scan_count(prefix) for the prefixes of the keys and for one-character probes of
+//! every class. (A bounded set of the same reads is also part of every observation of the
+//! roundtrip / configured-router / crash parts, whose generators include such keys too.)
+//!
+//! slab-capacity part: the slabs grow in units (the embedding slab in chunks of a fixed number of
+//! floats, the blob log in segments of a configured size, the cache ring up to a configured
+//! capacity), so routers of embedding dimension 384..12 000 and one `TensorStore` per run are filled
+//! with as many slab vectors as it takes to sit just below / exactly at / just above one, two or
+//! three chunk boundaries (10 921..33 000 vectors at the default dimension; with deletes, slot reuse
+//! and keys without a slab vector), blob logs with segments of 48 B..1 KiB, cache rings of capacity
+//! 2..64 filled beyond it; after every round trip each key, each vector read from the embedding
+//! slab itself (`router().index` + `router().embeddings`), each blob chunk must equal the original
+//! (bit-exact: all vectors are of the exactly stored sparse class). A load that panics is a violation.
+//!
 //! crash part (in this binary): child modes used by the strace kill-injection leg
 //! (`legs_c07.py`), which kills a real save at every write/open/rename syscall and then loads
 //! the destination path; plus an in-process enumeration of every prefix of the temporary file.
@@ -67,6 +89,9 @@ struct Obs {
     slab_index_reads: BTreeMap<String, Vec<String>>,
     /// graph slab read directly (router().graph): edge count and adjacency of entities 1..=8
     slab_graph: Vec<String>,
+    /// the remaining public key reads (a bounded set derived from the key listing): exists of
+    /// present / absent keys, scan(prefix) and scan_count(prefix)
+    key_reads: BTreeMap<String, String>,
 }
 
 fn canon_rval(v: &RVal) -> String {
@@ -170,6 +195,8 @@ fn observe(store: &TensorStore, blob_hashes: &[ChunkHash]) -> Obs {
     o.slab_tables = slab_tables;
     o.slab_index_reads = slab_index_reads;
     o.slab_graph = observe_graph_slab(&store.router().graph);
+    let listing: Vec<String> = o.view.keys().cloned().collect();
+    o.key_reads = read_keys(store, &build_probes(&listing, 16, 16, &[]), false);
     o
 }
 
@@ -461,12 +488,14 @@ fn build_content(rng: &mut Rng, size: usize, exact_only: bool) -> Content {
     // raw keys of every class and value kind
     let n_raw = size;
     for i in 0..n_raw {
-        let k = match rng.below(7) {
+        let k = match rng.below(8) {
             0 => format!("k:{}", i),
             1 | 2 => format!("emb:raw{}", i),
             3 => format!("user/é:{}", i),
             4 => format!("_blob:meta:{}", i),
             5 => format!("meta:{}", i),
+            // keys are arbitrary strings: any first character, bare or behind a routed class prefix
+            6 => format!("{}{}{}:{}", *rng.pick(&["", "", "", "emb:", "_cache:", "_blob:meta:"]), hostile_char(rng), if rng.bool() { hostile_char(rng).to_string() } else { String::new() }, i),
             _ => format!("zz:{}", i),
         };
         wid += 1;
@@ -708,6 +737,7 @@ fn compare(path: &str, orig: &Obs, got: &Obs, kinds: &BTreeMap<String, VecKind>,
     for (k, v) in &orig.view {
         match got.view.get(k) {
             None => push(format!("roundtrip:{}:key-missing", path), format!("key {} missing after round trip", k)),
+            Some(g) if g != v && g.starts_with("<listed by scan") => push(format!("roundtrip:{}:listed-key-not-readable", path), format!("key {:?} is listed by scan(\"\") after the round trip but get() does not find it", k)),
             Some(g) if g != v => {
                 // which field kinds differ?
                 let fa: BTreeMap<&str, &str> = v.split(';').filter_map(|f| f.split_once('=')).collect();
@@ -788,6 +818,16 @@ fn compare(path: &str, orig: &Obs, got: &Obs, kinds: &BTreeMap<String, VecKind>,
                         }
                     }
                 }
+            }
+        }
+    }
+    // the remaining key reads (exists / scan(prefix) / scan_count(prefix)); a probe that only one
+    // side has comes from a differing key listing, which is reported above
+    for (probe, ans) in &orig.key_reads {
+        if let Some(g) = got.key_reads.get(probe) {
+            r.count(if cfg { "cfg_key_reads_compared" } else { "key_reads_compared" }, 1);
+            if g != ans {
+                push(format!("roundtrip:{}:{}", path, key_read_kind(probe, ans, g)), format!("`{}`: original answers {}, reloaded answers {}", trunc(probe, 120), trunc(ans, 300), trunc(g, 300)));
             }
         }
     }
@@ -1124,11 +1164,12 @@ fn build_router(rng: &mut Rng, size: usize) -> RouterContent {
     // other keys of every class and value kind
     let n_other = rng.below(size + 1);
     for i in 0..n_other {
-        let k = match rng.below(5) {
+        let k = match rng.below(7) {
             0 => format!("k:{}", i),
             1 => format!("user/é:{}", i),
             2 => format!("meta:{}", i),
             3 => format!("_cache:q{}", i),
+            4 | 5 => format!("{}{}{}:{}", *rng.pick(&["", "", "", "_cache:", "node:", "table:"]), hostile_char(rng), if rng.bool() { hostile_char(rng).to_string() } else { String::new() }, i),
             _ => format!("node:{}", i),
         };
         wid += 1;
@@ -1198,6 +1239,8 @@ fn observe_router(router: &SlabRouter, blob_hashes: &[ChunkHash]) -> Obs {
     o.slab_tables = slab_tables;
     o.slab_index_reads = slab_index_reads;
     o.slab_graph = observe_graph_slab(&router.graph);
+    let listing: Vec<String> = o.view.keys().filter(|k| k.as_str() != "<embedding slab>").cloned().collect();
+    o.key_reads = read_keys(router, &build_probes(&listing, 16, 16, &[]), false);
     o
 }
 
@@ -1251,6 +1294,629 @@ fn router_case(case_seed: u64, r: &mut Report, args: &Args) {
     r.eval(hash_str(&format!("{} {:?}", c.dim, c.classes)) ^ case_seed, nontrivial);
     if r.want_sample() && nontrivial && case_seed % 4 == 0 {
         r.sample(json!({"part": "cfg-router", "content": c.description, "keys": orig.view.len()}));
+    }
+}
+
+// -------------------------------------------------------------------------------------------
+// key-space part: keys are arbitrary strings
+// -------------------------------------------------------------------------------------------
+
+/// Characters on the class boundaries of UTF-8 (1/2/3/4-byte encodings, first and last of each) and
+/// a few inside every class.
+const BOUNDARY_CHARS: [char; 34] = [
+    '\0', '\u{1}', '\t', '\n', ' ', '/', ':', '_', 'e', '~', '\u{7f}', '\u{80}', '\u{a0}', '\u{bf}', '\u{c0}', '\u{e9}', '\u{ff}', '\u{100}', '\u{17f}', '\u{3b1}', '\u{416}', '\u{7ff}', '\u{800}', '\u{fff}', '\u{1000}',
+    '\u{4e2d}', '\u{d7ff}', '\u{e000}', '\u{fffd}', '\u{ffff}', '\u{10000}', '\u{1f600}', '\u{fffff}', '\u{10ffff}',
+];
+
+/// A character of a random UTF-8 class: any ASCII byte (NUL, control, DEL included), U+0080..U+00FF,
+/// the rest of the two-byte range, the three-byte range, the four-byte range, or a class boundary.
+fn hostile_char(rng: &mut Rng) -> char {
+    let c = match rng.below(7) {
+        0 => rng.below(0x80) as u32,
+        1 => 0x80 + rng.below(0x80) as u32,
+        2 => 0x100 + rng.below(0x700) as u32,
+        3 => 0x800 + rng.below(0xF800) as u32,
+        4 => 0x1_0000 + rng.below(0x10_0000) as u32,
+        _ => *rng.pick(&BOUNDARY_CHARS) as u32,
+    };
+    // the surrogate range is not a character
+    char::from_u32(c).unwrap_or('\u{e9}')
+}
+
+/// A key of any shape: empty now and then; otherwise an optional routed class prefix, a first
+/// character of any class and a tail drawn mostly from the case's small `pool` (so that keys share
+/// prefixes and are prefixes of each other), sometimes long.
+fn hostile_key(rng: &mut Rng, pool: &[char]) -> String {
+    let class = match rng.below(14) {
+        0 | 1 => "emb:",
+        2 => "_cache:",
+        3 => "node:",
+        4 => "edge:",
+        5 => "table:",
+        6 => "_blob:meta:",
+        _ => "",
+    };
+    if class.is_empty() && rng.chance(1, 30) {
+        return String::new();
+    }
+    let mut k = String::from(class);
+    k.push(if rng.chance(3, 4) { hostile_char(rng) } else { *rng.pick(pool) });
+    let tail = match rng.below(10) {
+        0 => 0,
+        9 => 40 + rng.below(400),
+        _ => 1 + rng.below(4),
+    };
+    for _ in 0..tail {
+        k.push(if rng.chance(1, 4) { hostile_char(rng) } else { *rng.pick(pool) });
+    }
+    k
+}
+
+/// The public key reads, of a store or of a router.
+trait KeyReads {
+    fn kr_get(&self, k: &str) -> Option<TensorData>;
+    fn kr_exists(&self, k: &str) -> bool;
+    fn kr_scan(&self, p: &str) -> Vec<String>;
+    fn kr_count(&self, p: &str) -> usize;
+}
+impl KeyReads for TensorStore {
+    fn kr_get(&self, k: &str) -> Option<TensorData> {
+        self.get(k).ok()
+    }
+    fn kr_exists(&self, k: &str) -> bool {
+        self.exists(k)
+    }
+    fn kr_scan(&self, p: &str) -> Vec<String> {
+        self.scan(p)
+    }
+    fn kr_count(&self, p: &str) -> usize {
+        self.scan_count(p)
+    }
+}
+impl KeyReads for SlabRouter {
+    fn kr_get(&self, k: &str) -> Option<TensorData> {
+        self.get(k).ok()
+    }
+    fn kr_exists(&self, k: &str) -> bool {
+        self.exists(k)
+    }
+    fn kr_scan(&self, p: &str) -> Vec<String> {
+        self.scan(p)
+    }
+    fn kr_count(&self, p: &str) -> usize {
+        self.scan_count(p)
+    }
+}
+
+/// What is asked of a store: point reads of present and absent keys, prefix reads.
+struct Probes {
+    present: Vec<String>,
+    absent: Vec<String>,
+    prefixes: Vec<String>,
+}
+
+/// The first `n` characters of `k` (always a valid prefix string).
+fn char_prefix(k: &str, n: usize) -> &str {
+    match k.char_indices().nth(n) {
+        Some((i, _)) => &k[..i],
+        None => k,
+    }
+}
+
+/// Probes derived from a key listing: up to `max_keys` of the keys (evenly spread over the sorted
+/// listing); for up to `max_prefix_keys` of them (evenly spread again) the prefixes of 1, 2 and 3 characters, its class prefix (up to the
+/// first ':') alone and with the character that follows, and the key itself as a prefix; as absent
+/// keys the key with one more character / one character less (when not a key themselves) and
+/// `extra_absent`; plus one-character probes of every UTF-8 class and the routed class prefixes.
+fn build_probes(listing: &[String], max_keys: usize, max_prefix_keys: usize, extra_absent: &[String]) -> Probes {
+    let set: std::collections::BTreeSet<&str> = listing.iter().map(|k| k.as_str()).collect();
+    let step = listing.len().div_ceil(max_keys.max(1)).max(1);
+    let present: Vec<String> = listing.iter().step_by(step).take(max_keys).cloned().collect();
+    let mut prefixes: std::collections::BTreeSet<String> = BOUNDARY_CHARS.iter().map(|c| c.to_string()).collect();
+    for p in ["emb:", "_cache:", "node:", "edge:", "table:", "_blob:", "_"] {
+        prefixes.insert(p.to_string());
+    }
+    let mut absent: std::collections::BTreeSet<String> = extra_absent.iter().filter(|k| !set.contains(k.as_str())).cloned().collect();
+    let prefix_step = present.len().div_ceil(max_prefix_keys.max(1)).max(1);
+    for (n, k) in present.iter().enumerate() {
+        if n % prefix_step != 0 {
+            continue;
+        }
+        for chars in 1..=3 {
+            let p = char_prefix(k, chars);
+            if !p.is_empty() {
+                prefixes.insert(p.to_string());
+            }
+        }
+        if let Some(i) = k.find(':') {
+            prefixes.insert(k[..=i].to_string());
+            prefixes.insert(format!("{}{}", &k[..=i], char_prefix(&k[i + 1..], 1)));
+        }
+        if !k.is_empty() {
+            prefixes.insert(k.clone());
+        }
+        if (n / prefix_step) % 2 == 0 {
+            let longer = format!("{}\u{1}", k);
+            if !set.contains(longer.as_str()) {
+                absent.insert(longer);
+            }
+            let shorter = char_prefix(k, k.chars().count().saturating_sub(1));
+            if !set.contains(shorter) {
+                absent.insert(shorter.to_string());
+            }
+        }
+    }
+    Probes { present, absent: absent.into_iter().collect(), prefixes: prefixes.into_iter().collect() }
+}
+
+fn scan_summary(mut v: Vec<String>) -> String {
+    v.sort();
+    if v.len() <= 6 {
+        format!("{:?}", v)
+    } else {
+        let mut h = 0xcbf2_9ce4_8422_2325u64;
+        for k in &v {
+            h = hash_combine(h, hash_str(k));
+        }
+        format!("{} keys (hash {:016x}, first {:?}, last {:?})", v.len(), h, trunc(&v[0], 40), trunc(&v[v.len() - 1], 40))
+    }
+}
+
+/// The answers to all probes, keyed by a printable description of the probe.
+fn read_keys(x: &dyn KeyReads, p: &Probes, values: bool) -> BTreeMap<String, String> {
+    let mut m = BTreeMap::new();
+    m.insert("listing".to_string(), scan_summary(x.kr_scan("")));
+    for k in p.present.iter().chain(&p.absent) {
+        if values {
+            m.insert(format!("get {:?}", k), x.kr_get(k).map_or_else(|| "<not found>".to_string(), |d| canon_data(&d)));
+        }
+        m.insert(format!("exists {:?}", k), x.kr_exists(k).to_string());
+    }
+    for q in &p.prefixes {
+        m.insert(format!("scan {:?}", q), scan_summary(x.kr_scan(q)));
+        m.insert(format!("count {:?}", q), x.kr_count(q).to_string());
+    }
+    m
+}
+
+/// The failure class of one differing key read (the last component of the signature).
+fn key_read_kind(probe: &str, orig: &str, got: &str) -> &'static str {
+    match probe.split(' ').next().unwrap_or("") {
+        "listing" => "key-listing-differs",
+        "get" if got == "<not found>" => "present-key-not-readable",
+        "get" if orig == "<not found>" => "absent-key-readable",
+        "get" => "value-differs",
+        "exists" => "exists-differs",
+        "scan" => "prefix-scan-differs",
+        "count" => "prefix-count-differs",
+        _ => "key-read-differs",
+    }
+}
+
+/// Runs a save/load step; a panic inside it becomes an error text starting with "PANIC".
+fn no_panic<T>(what: &str, f: impl FnOnce() -> Result<T, String>) -> Result<T, String> {
+    match std::panic::catch_unwind(std::panic::AssertUnwindSafe(f)) {
+        Ok(r) => r,
+        Err(e) => Err(format!("PANIC in {}: {}", what, first_line(&panic_msg(&e)))),
+    }
+}
+
+fn load_failure_signature(path: &str, e: &str) -> String {
+    format!("roundtrip:{}:{}", path, if e.starts_with("PANIC") { "load-panics" } else { "load-error" })
+}
+
+fn keyspace_case(case_seed: u64, r: &mut Report, args: &Args) {
+    let mut rng = Rng::new(case_seed);
+    let n = *rng.pick(&[1usize, 3, 10, 40, 150, args.by_tier(150, 2_000)]);
+    let pool: Vec<char> = vec!['a', ':', *rng.pick(&['b', '/', '0', '\u{7f}']), hostile_char(&mut rng), hostile_char(&mut rng), hostile_char(&mut rng)];
+    let store = TensorStore::new();
+    let mut wid = 0u64;
+    let mut keys: Vec<String> = Vec::new();
+    for _ in 0..n {
+        let k = hostile_key(&mut rng, &pool);
+        wid += 1;
+        let _ = store.put(k.clone(), gen_data(&mut rng, &k, wid, true));
+        keys.push(k);
+    }
+    // history: overwrite, delete, put again
+    let mut deleted: Vec<String> = Vec::new();
+    for _ in 0..rng.below(n / 3 + 1) {
+        let k = rng.pick(&keys).clone();
+        match rng.below(3) {
+            0 => {
+                if store.delete(&k).is_ok() {
+                    deleted.push(k);
+                }
+            }
+            _ => {
+                wid += 1;
+                let _ = store.put(k.clone(), gen_data(&mut rng, &k, wid, true));
+            }
+        }
+    }
+    let mut listing = store.scan("");
+    listing.sort();
+    let fresh_absent: Vec<String> = (0..6).map(|_| hostile_key(&mut rng, &pool)).chain(deleted).collect();
+    let probes = build_probes(&listing, args.by_tier(300, 600), args.by_tier(40, 80), &fresh_absent);
+    let orig = read_keys(&store, &probes, true);
+    let non_ascii_leading = probes.present.iter().filter(|k| k.chars().next().map_or(false, |c| !c.is_ascii())).count() as u64;
+    let non_ascii_after_class = probes.present.iter().filter(|k| k.find(':').and_then(|i| k[i + 1..].chars().next()).map_or(false, |c| !c.is_ascii())).count() as u64;
+    let lead_bytes: std::collections::BTreeSet<u8> = listing.iter().filter_map(|k| k.as_bytes().first().copied()).collect();
+    let description = json!({"keys": listing.len(), "first_keys": listing.iter().take(8).map(|k| format!("{:?}", trunc(k, 24))).collect::<Vec<_>>(), "distinct_leading_bytes": lead_bytes.len(), "non_ascii_leading": non_ascii_leading, "empty_key": listing.first().map_or(false, |k| k.is_empty())});
+    let replay = json!({"part": "keyspace", "case_seed": case_seed});
+    let scratch = args.scratch_dir("c07k");
+    let mut paths = 0u64;
+    let mut judge = |path: &str, got: Result<BTreeMap<String, String>, String>, values: bool, r: &mut Report| {
+        r.count(&format!("roundtrips_{}", path), 1);
+        paths += 1;
+        match got {
+            Err(e) => r.violation(load_failure_signature(path, &e), format!("{} (content {})", e, description), replay.clone()),
+            Ok(g) => {
+                let mut reported = 0;
+                for (probe, ans) in &orig {
+                    let is_get = probe.starts_with("get ");
+                    if is_get && !values {
+                        continue;
+                    }
+                    r.count(if probe.starts_with("scan ") || probe.starts_with("count ") { "ks_prefix_reads_compared" } else { "ks_point_reads_compared" }, 1);
+                    let got_ans = g.get(probe).map(|s| s.as_str()).unwrap_or("<no answer>");
+                    if got_ans != ans && reported < 4 {
+                        reported += 1;
+                        r.violation(format!("roundtrip:{}:{}", path, key_read_kind(probe, ans, got_ans)), format!("`{}`: the original answers {}, the reloaded store answers {} (content {})", trunc(probe, 160), trunc(ans, 300), trunc(got_ans, 300), description), replay.clone());
+                    }
+                }
+            }
+        }
+    };
+    let p1 = scratch.join("k1.snap");
+    let got = no_panic("load_snapshot", || store.save_snapshot(&p1).map_err(|e| format!("save: {}", e)).and_then(|_| TensorStore::load_snapshot(&p1).map_err(|e| format!("load: {}", e))).map(|s| read_keys(&s, &probes, true)));
+    judge("ks-file", got, true, r);
+    let got = no_panic("load_snapshot_with_bloom_filter", || TensorStore::load_snapshot_with_bloom_filter(&p1, 2 * n + 64, 0.01).map_err(|e| format!("load: {}", e)).map(|s| read_keys(&s, &probes, true)));
+    judge("ks-file-bloom", got, true, r);
+    let got = no_panic("SlabRouter::load_from_file", || SlabRouter::load_from_file(&p1).map_err(|e| format!("load: {}", e)).map(|x| read_keys(&x, &probes, true)));
+    judge("ks-router-file", got, true, r);
+    let p2 = scratch.join("k2.snap");
+    let got = no_panic("load_snapshot (uncompressed)", || tensor_store::snapshot::save_v3_uncompressed(store.router(), &p2).map_err(|e| format!("save: {}", e)).and_then(|_| TensorStore::load_snapshot(&p2).map_err(|e| format!("load: {}", e))).map(|s| read_keys(&s, &probes, true)));
+    judge("ks-file-uncompressed", got, true, r);
+    match store.snapshot_bytes() {
+        Err(e) => r.violation("roundtrip:ks-bytes:snapshot-error", format!("{} (content {})", e, description), replay.clone()),
+        Ok(bytes) => {
+            let got = no_panic("restore_from_bytes", || {
+                let fresh = TensorStore::new();
+                fresh.restore_from_bytes(&bytes).map_err(|e| format!("restore: {}", e)).map(|_| read_keys(&fresh, &probes, true))
+            });
+            judge("ks-bytes-fresh", got, true, r);
+            let got = no_panic("restore_from_bytes (Bloom-filter store)", || {
+                let bloom = TensorStore::with_bloom_filter(4_096, 0.01);
+                let _ = bloom.put("k:previous", TensorData::new());
+                bloom.restore_from_bytes(&bytes).map_err(|e| format!("restore: {}", e)).map(|_| read_keys(&bloom, &probes, true))
+            });
+            judge("ks-bytes-bloom-store", got, true, r);
+            let got = no_panic("SlabRouter::from_bytes", || SlabRouter::from_bytes(&bytes).map_err(|e| format!("from_bytes: {}", e)).map(|x| read_keys(&x, &probes, true)));
+            judge("ks-router-bytes", got, true, r);
+        }
+    }
+    let got = no_panic("SlabRouter::restore", || Ok(read_keys(&SlabRouter::restore(store.router().snapshot()), &probes, true)));
+    judge("ks-snapshot-restore", got, true, r);
+    // the quantising format: values are the roundtrip part's business (known losses); the key reads
+    // must be exact here too. A refused save is an error return, not a wrong snapshot.
+    let p3 = scratch.join("k3.snap");
+    match no_panic("save_snapshot_compressed", || store.save_snapshot_compressed(&p3, tensor_compress::CompressionConfig::default()).map_err(|e| format!("save: {}", e))) {
+        Err(e) if e.starts_with("PANIC") => r.violation("roundtrip:ks-quantising:save-panics", format!("{} (content {})", e, description), replay.clone()),
+        Err(_) => r.count("ks_quantising_save_refused", 1),
+        Ok(()) => {
+            let got = no_panic("load_snapshot_compressed", || TensorStore::load_snapshot_compressed(&p3).map_err(|e| format!("load: {}", e)).map(|s| read_keys(&s, &probes, false)));
+            judge("ks-quantising", got, false, r);
+        }
+    }
+    // the original is untouched by all of this
+    if read_keys(&store, &probes, true) != orig {
+        r.violation("roundtrip:ks:saving-changed-the-original", format!("the store answers its key reads differently after it was saved (content {})", description), replay.clone());
+    }
+    r.count("ks_cases", 1);
+    r.count("ks_non_ascii_leading_keys_read_back", non_ascii_leading * paths);
+    r.count("ks_non_ascii_after_class_prefix_keys_read_back", non_ascii_after_class * paths);
+    if listing.first().map_or(false, |k| k.is_empty()) {
+        r.count("ks_stores_with_the_empty_key", 1);
+    }
+    r.count_max("max:ks_distinct_leading_bytes_in_one_store", lead_bytes.len() as u64);
+    let nontrivial = non_ascii_leading >= 1;
+    r.eval(hash_str(&format!("{:?}", listing)) ^ case_seed, nontrivial);
+    if r.want_sample() && nontrivial && case_seed % 8 == 0 {
+        r.sample(json!({"part": "keyspace", "content": description}));
+    }
+}
+
+// -------------------------------------------------------------------------------------------
+// slab-capacity part: the units the slabs grow in
+// -------------------------------------------------------------------------------------------
+
+/// A store or a bare router holding the content of a capacity case.
+enum Holder {
+    Store(TensorStore),
+    Router(SlabRouter),
+}
+impl Holder {
+    fn router(&self) -> &SlabRouter {
+        match self {
+            Holder::Store(s) => s.router(),
+            Holder::Router(x) => x,
+        }
+    }
+    fn put(&self, k: &str, d: TensorData) {
+        match self {
+            Holder::Store(s) => {
+                let _ = s.put(k, d);
+            }
+            Holder::Router(x) => {
+                let _ = x.put(k, d);
+            }
+        }
+    }
+    fn delete(&self, k: &str) -> bool {
+        match self {
+            Holder::Store(s) => s.delete(k).is_ok(),
+            Holder::Router(x) => x.delete(k).is_ok(),
+        }
+    }
+}
+
+/// What a capacity case compares: per key the other fields; per `emb:` key the vector the embedding
+/// slab itself holds for it (length and hash of the bits; `None` = the slab has none); blob chunks.
+#[derive(PartialEq, Default)]
+struct CapObs {
+    fields: BTreeMap<String, String>,
+    slab: BTreeMap<String, Option<(usize, u64)>>,
+    blobs: BTreeMap<u64, Option<u64>>,
+}
+
+fn bits_hash(v: &[f32]) -> u64 {
+    let mut h = 0x9E37_79B9_7F4A_7C15u64;
+    for x in v {
+        h = (h ^ x.to_bits() as u64).wrapping_mul(0x1000_0000_01B3);
+    }
+    h
+}
+
+fn observe_capacity(x: &SlabRouter, blob_hashes: &[ChunkHash]) -> CapObs {
+    let mut o = CapObs::default();
+    for k in x.scan("") {
+        match x.get(&k) {
+            Ok(mut d) => {
+                if k.starts_with("emb:") {
+                    let slab_vec = x.index.get(&k).and_then(|id| x.embeddings.get(id));
+                    if slab_vec.is_some() {
+                        // `get` shows the slab's vector in this field; it is compared through `slab`
+                        d.remove("_embedding");
+                    }
+                    o.slab.insert(k.clone(), slab_vec.map(|v| (v.len(), bits_hash(&v))));
+                }
+                o.fields.insert(k, canon_data(&d));
+            }
+            Err(_) => {
+                o.fields.insert(k, "<listed by scan but get fails>".into());
+            }
+        }
+    }
+    for h in blob_hashes {
+        o.blobs.insert(h.0, x.blobs.get(h).map(|b| hash_bytes(&b)));
+    }
+    o
+}
+
+fn capacity_case(case_seed: u64, r: &mut Report, args: &Args, default_store: bool) {
+    let mut rng = Rng::new(case_seed);
+    const DIMS: [usize; 14] = [384, 384, 512, 768, 1024, 1536, 2048, 3000, 4096, 5000, 6000, 8192, 10_000, 12_000];
+    let dim = if default_store { 384 } else { *rng.pick(&DIMS) };
+    let segment = *rng.pick(&[48usize, 256, 1024, 64 * 1024 * 1024]);
+    let cache_capacity = *rng.pick(&[2usize, 8, 64, 10_000]);
+    let holder = if default_store {
+        Holder::Store(TensorStore::new())
+    } else {
+        Holder::Router(SlabRouter::with_config(&SlabRouterConfig { embedding_dim: dim, cache_capacity, blob_segment_size: segment, ..SlabRouterConfig::default() }))
+    };
+    let fresh_capacity = holder.router().embeddings.capacity();
+    // aim of the workload only (nothing the oracle relies on): the slab grows by chunks of 4Mi floats
+    let per_chunk = (4 * 1024 * 1024 / dim).max(1);
+    let crossings = if default_store {
+        if args.quick() { 1 } else { 1 + rng.below(3) }
+    } else {
+        match rng.below(args.by_tier(8, 13)) {
+            0 => 0,
+            1..=6 => 1,
+            7..=9 => 2,
+            _ => 3,
+        }
+    };
+    let target = if crossings == 0 {
+        1 + rng.below(per_chunk.min(600))
+    } else {
+        let delta = match rng.below(6) {
+            0 => -1i64,
+            1 => 0,
+            2 => 1,
+            3 => 2,
+            4 => rng.below(40) as i64,
+            _ => rng.below(per_chunk / 2) as i64,
+        };
+        ((crossings * per_chunk) as i64 + delta).max(1) as usize
+    };
+    let slab_vector = |rng: &mut Rng, id: u64| -> Vec<f32> {
+        // exactly stored class at every dimension: far more than 55 % zeros (+0.0), non-zero
+        // components of magnitude >= 0.01; element 0 names the write
+        let mut v = vec![0.0f32; dim];
+        for _ in 0..4 + rng.below(28) {
+            let m = 0.01 + rng.unit_f64() as f32 * 2.0;
+            v[1 + rng.below(dim - 1)] = if rng.bool() { m } else { -m };
+        }
+        v[0] = (id % 16_000_000) as f32 + 1.0;
+        v
+    };
+    let mut wid = 0u64;
+    let mut put_vec = |rng: &mut Rng, key: &str| {
+        wid += 1;
+        let mut d = TensorData::new();
+        d.set("_wid", TensorValue::Scalar(ScalarValue::Int(wid as i64)));
+        if rng.chance(1, 8) {
+            d.set("f", gen_value(rng, true));
+        }
+        d.set("_embedding", TensorValue::Vector(slab_vector(rng, wid)));
+        holder.put(key, d);
+    };
+    // more than the target, then deletes (free slots), then late keys that reuse the freed slots
+    let extra = rng.below(5);
+    let mut live: Vec<String> = Vec::with_capacity(target + extra);
+    for i in 0..target + extra {
+        let k = format!("emb:c{}", i);
+        put_vec(&mut rng, &k);
+        live.push(k);
+    }
+    let late = rng.below(3);
+    for j in 0..extra + late {
+        if live.is_empty() {
+            break;
+        }
+        let k = live.swap_remove(rng.below(live.len()));
+        holder.delete(&k);
+        if j >= extra {
+            let k = format!("emb:late{}", j);
+            put_vec(&mut rng, &k);
+            live.push(k);
+        }
+    }
+    // rewritten in place; keys without a slab vector (another dimension / none)
+    for _ in 0..rng.below(4) {
+        let k = rng.pick(&live).clone();
+        put_vec(&mut rng, &k);
+    }
+    for j in 0..rng.below(4) {
+        let mut d = TensorData::new();
+        d.set("_wid", TensorValue::Scalar(ScalarValue::Int(-(j as i64) - 1)));
+        if rng.bool() {
+            d.set("_embedding", TensorValue::Vector(vec![0.5, -1.0, 2.0]));
+        }
+        holder.put(&format!("emb:noslab{}", j), d);
+    }
+    // other units: cache ring filled beyond its capacity, blob log over several segments, plain keys
+    let n_cache = rng.below(40);
+    for i in 0..n_cache {
+        let k = format!("_cache:c{}", i);
+        holder.put(&k, gen_data(&mut rng, &k, 1_000_000 + i as u64, true));
+    }
+    for i in 0..rng.below(20) {
+        let k = format!("k:{}", i);
+        holder.put(&k, gen_data(&mut rng, &k, 2_000_000 + i as u64, true));
+    }
+    let mut blob_hashes = Vec::new();
+    for _ in 0..rng.below(25) {
+        let n = if rng.chance(1, 10) { 1_000 + rng.below(400) } else { 1 + rng.below(200) };
+        let data = rng.bytes(n);
+        blob_hashes.push(holder.router().blobs.append(&data));
+    }
+    let slab_vectors = live.len() as u64;
+    let grown_capacity = holder.router().embeddings.capacity();
+    let description = json!({"holder": if default_store { "TensorStore::new()" } else { "SlabRouter::with_config" }, "embedding_dim": dim, "slab_vectors": slab_vectors, "embedding_slab_capacity_when_fresh": fresh_capacity, "embedding_slab_capacity_when_saved": grown_capacity,
+        "deleted_then": {"freed_slots": extra, "late_keys": late}, "cache_capacity": if default_store { 10_000 } else { cache_capacity }, "cache_keys_put": n_cache, "blob_segment_size": if default_store { 64 * 1024 * 1024 } else { segment }, "blob_chunks": blob_hashes.len(), "blob_segments": holder.router().blobs.segment_count()});
+    let orig = observe_capacity(holder.router(), &blob_hashes);
+    let replay = json!({"part": "slab-capacity", "case_seed": case_seed, "default_store": default_store});
+    let scratch = args.scratch_dir("c07c");
+    let judge = |path: &str, got: Result<CapObs, String>, with_blobs: bool, r: &mut Report| {
+        r.count(&format!("roundtrips_{}", path), 1);
+        let g = match got {
+            Err(e) => {
+                r.violation(load_failure_signature(path, &e), format!("{} (content {})", e, description), replay.clone());
+                return;
+            }
+            Ok(g) => g,
+        };
+        let mut reported = 0;
+        let mut viol = |sig: String, d: String, r: &mut Report| {
+            if reported < 4 {
+                reported += 1;
+                r.violation(sig, format!("{} (content {})", d, description), replay.clone());
+            }
+        };
+        for (k, v) in &orig.fields {
+            match g.fields.get(k) {
+                None => viol(format!("roundtrip:{}:key-missing", path), format!("key {:?} missing after the round trip", k), r),
+                Some(x) if x != v => viol(format!("roundtrip:{}:field-differs", path), format!("key {:?}: {} vs {}", k, trunc(v, 200), trunc(x, 200)), r),
+                _ => {}
+            }
+        }
+        for k in g.fields.keys() {
+            if !orig.fields.contains_key(k) {
+                viol(format!("roundtrip:{}:key-added", path), format!("key {:?} appeared after the round trip", k), r);
+            }
+        }
+        for (k, v) in &orig.slab {
+            r.count("cap_slab_vectors_compared", 1);
+            match (v, g.slab.get(k).copied().flatten()) {
+                (Some(_), None) => viol(format!("roundtrip:{}:slab-vector-missing", path), format!("the embedding slab holds no vector for {:?} after the round trip", k), r),
+                (Some(a), Some(b)) if *a != b => viol(format!("roundtrip:{}:slab-vector-not-exact", path), format!("the embedding slab's vector of {:?} (dimension {} -> {}) has other bits after the round trip", k, a.0, b.0), r),
+                (None, Some(_)) => viol(format!("roundtrip:{}:slab-vector-added", path), format!("the embedding slab holds a vector for {:?} only after the round trip", k), r),
+                _ => {}
+            }
+        }
+        if with_blobs {
+            r.count("cap_blob_chunks_compared", orig.blobs.len() as u64);
+            if orig.blobs != g.blobs {
+                let d = orig.blobs.iter().find(|(h, v)| g.blobs.get(*h) != Some(*v)).map(|(h, v)| format!("chunk {:016x}: {:?} vs {:?}", h, v, g.blobs.get(h)));
+                viol(format!("roundtrip:{}:blob-chunks-differ", path), d.unwrap_or_default(), r);
+            }
+        }
+    };
+    match &holder {
+        Holder::Router(x) => {
+            let got = no_panic("SlabRouter::from_bytes", || x.to_bytes().map_err(|e| format!("to_bytes: {}", e)).and_then(|b| SlabRouter::from_bytes(&b).map_err(|e| format!("from_bytes: {}", e))).map(|y| observe_capacity(&y, &blob_hashes)));
+            judge("cap-bytes", got, true, r);
+            let p = scratch.join("c1.snap");
+            let got = no_panic("SlabRouter::load_from_file", || x.save_to_file(&p).map_err(|e| format!("save: {}", e)).and_then(|_| SlabRouter::load_from_file(&p).map_err(|e| format!("load: {}", e))).map(|y| observe_capacity(&y, &blob_hashes)));
+            judge("cap-file", got, true, r);
+            let _ = std::fs::remove_file(&p);
+            let p = scratch.join("c2.snap");
+            let got = no_panic("snapshot::load", || tensor_store::snapshot::save_v3_uncompressed(x, &p).map_err(|e| format!("save: {}", e)).and_then(|_| tensor_store::snapshot::load(&p).map_err(|e| format!("load: {}", e))).map(|y| observe_capacity(&y, &blob_hashes)));
+            judge("cap-file-uncompressed", got, true, r);
+            let _ = std::fs::remove_file(&p);
+            let got = no_panic("SlabRouter::restore", || Ok(observe_capacity(&SlabRouter::restore(x.snapshot()), &blob_hashes)));
+            judge("cap-snapshot-restore", got, true, r);
+        }
+        Holder::Store(s) => {
+            let p = scratch.join("s1.snap");
+            let got = no_panic("load_snapshot", || s.save_snapshot(&p).map_err(|e| format!("save: {}", e)).and_then(|_| TensorStore::load_snapshot(&p).map_err(|e| format!("load: {}", e))).map(|y| observe_capacity(y.router(), &blob_hashes)));
+            judge("cap-store-file", got, true, r);
+            let got = no_panic("load_snapshot_with_bloom_filter", || TensorStore::load_snapshot_with_bloom_filter(&p, 50_000, 0.01).map_err(|e| format!("load: {}", e)).map(|y| observe_capacity(y.router(), &blob_hashes)));
+            judge("cap-store-file-bloom", got, true, r);
+            let _ = std::fs::remove_file(&p);
+            // restore_from_bytes keeps the live store's own blob log: outside the comparison
+            let got = no_panic("restore_from_bytes", || {
+                let bytes = s.snapshot_bytes().map_err(|e| format!("snapshot_bytes: {}", e))?;
+                let fresh = TensorStore::new();
+                fresh.restore_from_bytes(&bytes).map_err(|e| format!("restore: {}", e)).map(|_| observe_capacity(fresh.router(), &blob_hashes))
+            });
+            judge("cap-store-bytes", got, false, r);
+        }
+    }
+    if observe_capacity(holder.router(), &blob_hashes) != orig {
+        r.violation("roundtrip:cap:saving-changed-the-original", format!("the original reads differently after it was saved (content {})", description), replay.clone());
+    }
+    r.count("cap_cases", 1);
+    if default_store {
+        r.count("cap_default_dimension_stores", 1);
+    }
+    if grown_capacity > fresh_capacity {
+        r.count("cap_embedding_slabs_grown_beyond_fresh_capacity", 1);
+    }
+    if holder.router().blobs.segment_count() > 1 {
+        r.count("cap_blob_logs_with_several_segments", 1);
+    }
+    if !default_store && n_cache > cache_capacity {
+        r.count("cap_cache_rings_filled_beyond_capacity", 1);
+    }
+    r.count_max("max:cap_slab_vectors_in_one_store", slab_vectors);
+    let nontrivial = grown_capacity > fresh_capacity;
+    r.eval(hash_str(&format!("{} {} {}", dim, slab_vectors, default_store)) ^ case_seed, nontrivial);
+    if r.want_sample() && (default_store || case_seed % 4 == 0) {
+        r.sample(json!({"part": "slab-capacity", "content": description}));
     }
 }
 
@@ -1537,6 +2203,8 @@ fn main() {
             "resnapshot" => resnapshot_case(s, &mut total, &args),
             "roundtrip-big" => roundtrip_case(s, &mut total, &args, true),
             "cfg-router" => router_case(s, &mut total, &args),
+            "keyspace" => keyspace_case(s, &mut total, &args),
+            "slab-capacity" => capacity_case(s, &mut total, &args, rp["default_store"].as_bool().unwrap_or(false)),
             _ => roundtrip_case(s, &mut total, &args, false),
         }
     } else {
@@ -1550,6 +2218,18 @@ fn main() {
         if want("cfg-router") {
             let a2 = args.clone();
             let rep = par_cases(args.threads, args.seed ^ 0xC0F6, args.by_tier(480, 20_000), args.budget(15, 240), move |_i, s, r| router_case(s, r, &a2));
+            total.merge(rep);
+        }
+        if want("keyspace") {
+            let a2 = args.clone();
+            let rep = par_cases(args.threads, args.seed ^ 0x6B5, args.by_tier(320, 12_000), args.budget(8, 180), move |_i, s, r| keyspace_case(s, r, &a2));
+            total.merge(rep);
+        }
+        if want("slab-capacity") {
+            // every case holds a few chunks of 16 MiB several times over: fewer workers. Case 0 (and
+            // every 24th) is a `TensorStore::new()` filled beyond the first chunk of its embedding slab.
+            let a2 = args.clone();
+            let rep = par_cases(args.threads.min(6), args.seed ^ 0xCA9, args.by_tier(18, 400), args.budget(8, 300), move |i, s, r| capacity_case(s, r, &a2, i % 24 == 0));
             total.merge(rep);
         }
         if want("roundtrip-big") {
@@ -1570,24 +2250,28 @@ fn main() {
     }
     let meta = Meta {
         property: "C07",
-        rule: "roundtrip case = store of 0..200 (a few of 3 000 / 30 000) raw entries over all value kinds and key classes + relational tables (Int/Float/String/Bool/Bytes, nullable, optional index) + graph nodes/edges with properties + vector-engine embeddings (dims 2-255 and 384) + blob-log chunks, saved and reloaded through 9 paths (file, v3 uncompressed, v3 default/zstd, bytes->fresh store, bytes->dirty store, bytes->store with a Bloom filter, SlabRouter bytes, quantising format default and balanced) and observed through store scan/get AND RelationalEngine/GraphEngine/VectorEngine reads; temp-prefix case = destination A + every (small) or sampled prefix of B's bytes as the sibling temp file, then the renamed file, plus a real save over a longer leftover temp file; resnapshot case = image, 1-3 changes of random kind (relational rows through the slab, new table, clear(), graph node, raw put, delete rows), image again after each change, restored and compared with the live store. Distinct = hash of key set x seed; non-trivial = at least 3 keys (round trip) / A and B differ (crash). The relational slab (router().relations) of a store is, in a third of the stores, additionally given tables with a random multi-step history (create_index on the empty table / between / after the rows and on nullable or later-added Int columns, inserts with NULLs, batch inserts, deletes, update_row and restore_row on indexed columns, restore_deleted_row, add/drop column, drop table) and is observed through all its public reads: schema, live rows, row_count and every non-empty answer of index_lookup / index_range (4 operators) / index_between over every Int column for the keys {i64::MIN,-3,-1,0,1,2,7,15,42,i64::MAX} + the values in the rows; original and reloaded slab must answer alike. cfg-router case = SlabRouter::with_config with embedding_dim from {1..600, dense around 128/129 and 255/256/257} (cache capacity and graph merge threshold varied too) holding 1..40 (thorough ..300) emb: entries whose slab vector is dense-random / dense-low-rank / dense with NaN, inf, -0.0, subnormals / sparse / exactly half zero / one more than half non-zero / all-zero / one-hot, rewritten, replaced by vectors of another dimension, deleted and put again, plus other keys, a relational slab history, graph slab edges and blob chunks; round-tripped through to_bytes/from_bytes, save_to_file/load_from_file, save_v3_uncompressed/snapshot::load and snapshot()/restore(); observed through scan/get, the relational slab reads, graph slab and blob log; distinct = hash of (dimension, class of every slab vector) x seed, non-trivial = at least one slab vector.",
+        rule: "roundtrip case = store of 0..200 (a few of 3 000 / 30 000) raw entries over all value kinds and key classes + relational tables (Int/Float/String/Bool/Bytes, nullable, optional index) + graph nodes/edges with properties + vector-engine embeddings (dims 2-255 and 384) + blob-log chunks, saved and reloaded through 9 paths (file, v3 uncompressed, v3 default/zstd, bytes->fresh store, bytes->dirty store, bytes->store with a Bloom filter, SlabRouter bytes, quantising format default and balanced) and observed through store scan/get AND RelationalEngine/GraphEngine/VectorEngine reads; temp-prefix case = destination A + every (small) or sampled prefix of B's bytes as the sibling temp file, then the renamed file, plus a real save over a longer leftover temp file; resnapshot case = image, 1-3 changes of random kind (relational rows through the slab, new table, clear(), graph node, raw put, delete rows), image again after each change, restored and compared with the live store. Distinct = hash of key set x seed; non-trivial = at least 3 keys (round trip) / A and B differ (crash). The relational slab (router().relations) of a store is, in a third of the stores, additionally given tables with a random multi-step history (create_index on the empty table / between / after the rows and on nullable or later-added Int columns, inserts with NULLs, batch inserts, deletes, update_row and restore_row on indexed columns, restore_deleted_row, add/drop column, drop table) and is observed through all its public reads: schema, live rows, row_count and every non-empty answer of index_lookup / index_range (4 operators) / index_between over every Int column for the keys {i64::MIN,-3,-1,0,1,2,7,15,42,i64::MAX} + the values in the rows; original and reloaded slab must answer alike. cfg-router case = SlabRouter::with_config with embedding_dim from {1..600, dense around 128/129 and 255/256/257} (cache capacity and graph merge threshold varied too) holding 1..40 (thorough ..300) emb: entries whose slab vector is dense-random / dense-low-rank / dense with NaN, inf, -0.0, subnormals / sparse / exactly half zero / one more than half non-zero / all-zero / one-hot, rewritten, replaced by vectors of another dimension, deleted and put again, plus other keys, a relational slab history, graph slab edges and blob chunks; round-tripped through to_bytes/from_bytes, save_to_file/load_from_file, save_v3_uncompressed/snapshot::load and snapshot()/restore(); observed through scan/get, the relational slab reads, graph slab and blob log; distinct = hash of (dimension, class of every slab vector) x seed, non-trivial = at least one slab vector. keyspace case = TensorStore::new() with 1..150 (thorough ..2 000) keys of arbitrary shape - the empty key, first character of any UTF-8 class (any ASCII byte, U+0080..U+00FF, 2-/3-/4-byte characters, class boundaries) bare or behind emb: / _cache: / node: / edge: / table: / _blob:meta:, tails from a small per-case pool so that keys share prefixes, some 40-440 characters long - overwritten, deleted, put again; reloaded through 9 paths (file, file + Bloom filter, SlabRouter::load_from_file, v3 uncompressed, bytes->fresh store, bytes->Bloom-filter store, SlabRouter::from_bytes, snapshot()/restore(), quantising format) and asked ALL public key reads: scan(\"\"), get + exists of up to 300 present keys and of absent keys (one character more / less, deleted keys, fresh random keys), scan(prefix) + scan_count(prefix) for the 1-/2-/3-character prefixes, class prefixes and whole keys of up to 40 keys and for 34 one-character probes of every UTF-8 class; every answer must equal the original's (quantising format: all but the get values); distinct = hash of the key listing x seed, non-trivial = at least one key with a non-ASCII first character. The same reads (16 keys, exists / scan / scan_count) are part of every observation of the roundtrip, cfg-router, temp-prefix and resnapshot cases, whose raw-key generators include such keys. slab-capacity case = SlabRouter::with_config with embedding_dim from {384..12 000}, blob segment size {48 B, 256 B, 1 KiB, 64 MiB} and cache capacity {2, 8, 64, 10 000} (case 0 of every run: TensorStore::new()) filled with k x chunk + d slab vectors, k in {0,1,2,(3)} and d in {-1,0,1,2,<40,<chunk/2} where chunk = the number of vectors per 4Mi-float chunk (10 922 at dimension 384), a few more first and then deleted, late keys reusing the freed slots, in-place rewrites, emb: keys without a slab vector, up to 40 _cache: keys, plain keys and up to 25 blob chunks of 1..1 400 bytes; round-tripped through to_bytes/from_bytes, save_to_file/load_from_file, save_v3_uncompressed/snapshot::load, snapshot()/restore() (store: save_snapshot/load_snapshot, load_snapshot_with_bloom_filter, snapshot_bytes/restore_from_bytes); compared per key: the fields, the vector read from the embedding slab itself (router().index.get + router().embeddings.get; bit-exact), and the blob chunks; a load that panics is a violation (load-panics); distinct = (dimension, vectors, holder) x seed, non-trivial = the original slab had grown beyond the capacity of a fresh one.",
         assumptions: vec![
             "384-dim slab vectors with >= 55% zeros are expected bit-exact (the slab snapshot's sparse path); dense low-TT-rank 384-dim vectors are held to the documented <1% relative L2 error; dense random 384-dim vectors are not judged (no bound is documented when the rank cap binds)".into(),
             "quantising format: vector payloads are not judged beyond presence; everything else must be exact".into(),
             "embedding slabs of another dimension (cfg-router part): every slab vector of a dimension below the documented compression threshold 256 must come back bit-identical whatever its representation class (zeros in the sparse classes are +0.0 and their non-zero components have magnitude >= 0.01, so the sparse encoding's own 1e-6 cut-off is never in play); at dimensions >= 256 vectors with >= 55% zeros are held to bit-exactness, dense sums of two geometric sequences (TT-rank <= 2 under any reshaping) to the documented <1% relative L2 error, other dense or half-zero vectors are not judged beyond their dimension".into(),
             "relational slab: the secondary-index reads are compared between the original and the reloaded slab (same row ids for the same key/range), not against a model of what an index should contain - postings that update_row left stale in the original are expected to be equally stale after the round trip".into(),
+            "key reads (keyspace part and the key reads inside every observation): only answers of the ORIGINAL store are the reference - scan(prefix) of the reloaded store must list what scan(prefix) of the original lists, whatever that is (what the original's scan(prefix) returns for a given prefix is not judged here); the quantising format is held to the same key listing / exists / prefix answers, its values are judged by the roundtrip part only".into(),
+            "slab-capacity part: all slab vectors are of the exactly stored class (>= 55 % zeros as +0.0, non-zero magnitudes >= 0.01), so bit-identity is demanded at every dimension; entity ids are not compared (restore_from_bytes assigns new ones), the vector the slab holds for a key is; the chunk size 4Mi floats is only used to aim the workload at the boundaries - the evidence counts the slabs whose public capacity() actually grew; statistics (len, chunk/segment counts) are not compared".into(),
             "for restore_from_bytes, blob-log chunks (router().blobs) and the graph slab (router().graph) are outside the comparison (the live store keeps its own); the relational slab is inside".into(),
         ],
         floors: if args.replay.is_some() {
             vec![]
         } else if let Some(part) = &only_part {
             match part.as_str() {
-                "cfg-router" => vec![("cfg_router_cases", 40), ("cfg_dense_vectors_of_dim_129_to_255_held_to_bit_identity", 200), ("cfg_exact_slab_vectors_compared", 1_000), ("cfg_slab_index_answers_compared", 1_000)],
-                "roundtrip" => vec![("keys_compared", 2_000), ("exact_slab_vectors_compared", 100), ("slab_index_answers_compared", 1_000)],
+                "cfg-router" => vec![("cfg_key_reads_compared", 5_000), ("cfg_router_cases", 40), ("cfg_dense_vectors_of_dim_129_to_255_held_to_bit_identity", 200), ("cfg_exact_slab_vectors_compared", 1_000), ("cfg_slab_index_answers_compared", 1_000)],
+                "roundtrip" => vec![("keys_compared", 2_000), ("exact_slab_vectors_compared", 100), ("slab_index_answers_compared", 1_000), ("key_reads_compared", 5_000)],
+                "keyspace" => vec![("ks_cases", 20), ("ks_point_reads_compared", 5_000), ("ks_prefix_reads_compared", 5_000), ("ks_non_ascii_leading_keys_read_back", 500), ("ks_non_ascii_after_class_prefix_keys_read_back", 200)],
+                "slab-capacity" => vec![("cap_cases", 4), ("cap_default_dimension_stores", 1), ("cap_embedding_slabs_grown_beyond_fresh_capacity", 3), ("cap_slab_vectors_compared", 20_000), ("cap_blob_chunks_compared", 20)],
                 _ => vec![("evaluations", 1)],
             }
         } else {
-            vec![("evaluations", 60), ("keys_compared", 2_000), ("table_rows_compared", 500), ("graph_entities_compared", 500), ("exact_slab_vectors_compared", 100), ("temp_prefix_images", 500), ("max:store_entries", 2_000), ("resnapshots_compared", 200), ("saves_over_stale_temp_file", 20), ("slab_index_answers_compared", 1_000), ("cfg_router_cases", 40), ("cfg_dense_vectors_of_dim_129_to_255_held_to_bit_identity", 200), ("cfg_dense_vectors_below_256_held_to_bit_identity", 500), ("cfg_exact_slab_vectors_compared", 1_000), ("cfg_slab_index_answers_compared", 1_000)]
+            vec![("evaluations", 60), ("keys_compared", 2_000), ("table_rows_compared", 500), ("graph_entities_compared", 500), ("exact_slab_vectors_compared", 100), ("temp_prefix_images", 500), ("max:store_entries", 2_000), ("resnapshots_compared", 200), ("saves_over_stale_temp_file", 20), ("slab_index_answers_compared", 1_000), ("cfg_router_cases", 40), ("cfg_dense_vectors_of_dim_129_to_255_held_to_bit_identity", 200), ("cfg_dense_vectors_below_256_held_to_bit_identity", 500), ("cfg_exact_slab_vectors_compared", 1_000), ("cfg_slab_index_answers_compared", 1_000), ("key_reads_compared", 5_000), ("cfg_key_reads_compared", 5_000), ("ks_cases", 20), ("ks_point_reads_compared", 5_000), ("ks_prefix_reads_compared", 5_000), ("ks_non_ascii_leading_keys_read_back", 500), ("ks_non_ascii_after_class_prefix_keys_read_back", 200), ("cap_cases", 4), ("cap_default_dimension_stores", 1), ("cap_embedding_slabs_grown_beyond_fresh_capacity", 3), ("cap_slab_vectors_compared", 20_000), ("cap_blob_chunks_compared", 20)]
         },
         exhaustive: false,
     };
